@@ -63,7 +63,7 @@ func (g *projGen) method(ci, mi int, prefixParams []string, types []pType, file 
 	}
 	segs = append(segs, fmt.Sprintf("m%d_%d", ci, mi))
 	route := "/" + strings.Join(segs, "/")
-	if g.prefixTrailing && strings.HasPrefix(segs[0], "{") && r.Bool() {
+	if g.prefixTrailing && strings.HasPrefix(segs[0], "{") && r.Chance(3, 4) {
 		route = strings.Join(segs, "/") // "{p0}/..." right after the controller's trailing slash
 	}
 	m.Annots = append(m.Annots, pAnnot{Name: "Method", Value: verb}, pAnnot{Name: "Route", Value: route})
@@ -445,6 +445,49 @@ func genProject(r *rng.R, nPerturb int) (pProject, []string) {
 		}
 		p.Controllers[ci].Methods = append(p.Controllers[ci].Methods, twin)
 		applied = append(applied, "path-conflict")
+	}
+	if nPerturb > 0 {
+		// a method route that opens with a {param} (no leading slash): bind it under ANOTHER name - the
+		// template variable then has no matching path parameter and the project must be refused
+		for ci := range p.Controllers {
+			for mi := range p.Controllers[ci].Methods {
+				m := &p.Controllers[ci].Methods[mi]
+				route := ""
+				for _, a := range m.Annots {
+					if a.Name == "Route" {
+						route = a.Value
+					}
+				}
+				if !strings.HasPrefix(route, "{") {
+					continue
+				}
+				first := strings.Trim(strings.SplitN(route, "/", 2)[0], "{}")
+				for ai := range m.Annots {
+					a := &m.Annots[ai]
+					if a.Name != "Path" {
+						continue
+					}
+					wire := a.Value
+					if n, ok := a.Props["name"].(string); ok && n != "" {
+						wire = n
+					}
+					if wire == first {
+						old := a.Value
+						a.Value = old + "X"
+						delete(a.Props, "name")
+						for pi := range m.Params {
+							if m.Params[pi].Name == old {
+								m.Params[pi].Name = old + "X"
+							}
+						}
+						applied = append(applied, "mismatch-leading-url-param")
+					}
+				}
+			}
+		}
+	}
+	if len(applied) > 0 && applied[len(applied)-1] == "mismatch-leading-url-param" {
+		nPerturb = 0 // keep the rest of the project valid: this one defect alone must get it refused
 	}
 	for k := 0; k < nPerturb; k++ {
 		ci := r.Intn(len(p.Controllers))
